@@ -78,7 +78,7 @@ package query
 //@   property C14 C19
 //@   safety
 
-//@ func NewSortValue
+//@ func NewSortValue!body
 //@   property C14 C19
 //@   safety
 
@@ -109,6 +109,8 @@ package query
 //@ func SerializeKey
 //@   property C14 C19
 //@   safety
+//@   ghostset looseKeys = looseKeys + 1
+//@   modifies * except F:option.Flags.StrictEqual#
 
 //@ func SetEnvVar
 //@   property C14 C19
@@ -881,7 +883,8 @@ package query
 //@   ghostset after call (query.ViewMap).Set#*: published = published + 1
 //@   ghostset after call (*query.ReferenceScope).ReplaceTemporaryTable#*: published = published + 1
 //@ func AddColumns
-//@   property C14 C08
+//@   property C14 C08 C05
+//@   assert after call EvaluateSequentially#*: [defaults-are-evaluated-against-the-old-header] base(view.Header) != base(header)
 //@   ownwrites E:value.Primary#
 //@   ensures [failed-statement-publishes-nothing] result2 != nil ==> published == old(published)
 //@   ghostset after call (query.ViewMap).Set#*: published = published + 1
